@@ -38,6 +38,7 @@ def Ty.hasSelf : Ty → Bool
   | .never => false
   | .dynT _ segs _ => Seg.hasSelfL segs
   | .macro _ => false
+  | .prefixed _ t => t.hasSelf
 def Ty.hasSelfO : Option Ty → Bool
   | none => false
   | some t => t.hasSelf
